@@ -567,7 +567,7 @@ async fn connect_part(ctx: &Ctx, rng: &mut Rng) {
             ctx.eval(1);
             let short = format!("p{}", scen);
             let pl = net::listen_as(&epmd, &short).await;
-            let cookie = rng.pick(&["secret", "", "пароль", "a-much-longer-cookie-value-0123456789"]).to_string();
+            let cookie = rng.pick(&["secret", "", "пароль", "a-much-longer-cookie-value-0123456789", "secret\n", " padded ", "tab\t", "\n", "se cret", "\u{a0}nbsp\u{a0}", "UPPER", "trailing\r\n"]).to_string();
             let own_flags = if round % 3 == 1 { DistributionFlags::default().as_u64() | 0x2000 } else if round % 3 == 2 { rng.next_u64() | 0x0100_0000 } else { DistributionFlags::default().as_u64() };
             let peer_flags = if round % 2 == 0 { PEER_BASE_FLAGS | 0x2000 | 0x800_0000 } else { rng.next_u64() };
             let peer_challenge = *rng.pick(&[0u32, 1, u32::MAX, 0x8000_0000, 123456789]);
